@@ -16,6 +16,7 @@ import (
 	"fmt"
 	"math/bits"
 	"os"
+	"regexp"
 	"sort"
 	"strings"
 
@@ -235,7 +236,9 @@ func c04Shapes(reg *template.Registry) map[string]bool {
 func c04Bundles(e *env, n int) []*c04Unit {
 	var out []*c04Unit
 	for i := 0; i < n; i++ {
-		o := progOpts{depth: 3, directives: true, jsSafe: true, core: true, useIj: i%4 == 0, noLog: i%5 != 0}
+		// helperNames: lets named like the generator's loop helpers (xList, xLimit_1, x1 ...) live with a loop over $x -- the
+		// boundary of the freshness invariant of the generated names (ginv in Proofs/MiniJSCtl.v)
+		o := progOpts{depth: 3, directives: true, jsSafe: true, core: true, useIj: i%4 == 0, noLog: i%5 != 0, helperNames: i%2 == 0}
 		files, entry, dataSets, feats := genBundle(e.rng, o)
 		b := &c14Bundle{Stream: "prog", Files: files, Feats: feats}
 		if i%3 == 0 {
@@ -253,10 +256,155 @@ func c04Bundles(e *env, n int) []*c04Unit {
 	return out
 }
 
+// ---------- floats (translation validation only: MiniJS is integer-only by design) ----------
+
+var c04Exponent = regexp.MustCompile(`[0-9][eE][+-]?[0-9]`)
+
+// c04FloatPool: doubles with short decimal expansions: the near-half family x.xx5 (just below or above the decimal
+// number), exact halves and quarters, and ordinary ones
+var c04FloatPool = []float64{1.005, 1.255, 4.145, 2.675, 1.45, 8.345, 5.015, 10.235, 999.995, 0.045, 0.5, 1.5, 2.5, 3.5, 0.25, 0.125, 0.375,
+	3.14159, 89.5, 100.25, 0.1, 0.2, 0.3, 0.7, 12.5, 7.0, 1.1, 2.2, 33.335, 0.615}
+var c04FloatLits = []string{"0.5", "1.5", "2.5", "1.005", "2.675", "1.255", "4.145", "0.125", "10.25", "0.045", "3.0", "0.1", "0.2", "8.345", "0.615"}
+
+// c04FloatExpr: a non-negative float expression over $p, $q, the loop variable $x (when inLoop), float and small integer
+// literals, + and * with a small operand, min / max; neg allows one subtraction at the top (floor / ceiling / min / max and
+// printing agree on negative numbers; round's ties on negative numbers are the finding round-negative-tie)
+func c04FloatExpr(e *env, d int, inLoop bool) string {
+	r := e.rng
+	atom := func() string {
+		switch r.Intn(6) {
+		case 0, 1:
+			return r.Pick([]string{"$p", "$q"})
+		case 2:
+			if inLoop {
+				return "$x"
+			}
+			return "$p"
+		case 3:
+			return fmt.Sprint(1 + r.Intn(9))
+		default:
+			return r.Pick(c04FloatLits)
+		}
+	}
+	if d <= 0 || r.Chance(35) {
+		return atom()
+	}
+	switch r.Intn(6) {
+	case 0, 1:
+		return "(" + c04FloatExpr(e, d-1, inLoop) + " + " + c04FloatExpr(e, d-1, inLoop) + ")"
+	case 2:
+		return "(" + c04FloatExpr(e, d-1, inLoop) + " * " + r.Pick([]string{"2", "3", "10", "100", "0.5", "1.5", "0.1"}) + ")"
+	case 3:
+		return r.Pick([]string{"min", "max"}) + "(" + c04FloatExpr(e, d-1, inLoop) + ", " + c04FloatExpr(e, d-1, inLoop) + ")"
+	default:
+		return atom()
+	}
+}
+
+// c04FloatPrint: one print of a float expression through the numeric built-ins
+func c04FloatPrint(e *env, inLoop bool) string {
+	r := e.rng
+	x := c04FloatExpr(e, 2, inLoop)
+	switch r.Intn(10) {
+	case 0, 1, 2:
+		return "{round(" + x + ", " + r.Pick([]string{"2", "2", "1", "3", "0", "-1"}) + ")}"
+	case 3:
+		return "{round(" + x + ")}"
+	case 4:
+		return "{" + r.Pick([]string{"floor", "ceiling"}) + "(" + x + ")}"
+	case 5:
+		return "{" + r.Pick([]string{"floor", "ceiling"}) + "(" + x + " - " + c04FloatExpr(e, 1, inLoop) + ")}"
+	case 6:
+		return "{" + x + " - " + c04FloatExpr(e, 1, inLoop) + "}"
+	case 7:
+		return "{round(" + x + " * 100) / 100}"
+	case 8:
+		return "{if " + x + " < " + c04FloatExpr(e, 1, inLoop) + "}lt{else}ge{/if}"
+	default:
+		return "{" + x + "}"
+	}
+}
+
+func c04FloatBundles(e *env, n int) []*c04Unit {
+	var out []*c04Unit
+	for i := 0; i < n; i++ {
+		var body strings.Builder
+		for k := 1 + e.rng.Intn(4); k > 0; k-- {
+			body.WriteString(c04FloatPrint(e, false) + ";")
+		}
+		body.WriteString("{if $p < $q}<{/if}") // every declared parameter is used
+		body.WriteString("{foreach $x in $l}")
+		for k := 1 + e.rng.Intn(2); k > 0; k-- {
+			body.WriteString(c04FloatPrint(e, true))
+		}
+		body.WriteString("{if not isLast($x)},{/if}{/foreach}")
+		if e.rng.Chance(30) {
+			body.WriteString("{let $v: " + c04FloatExpr(e, 2, false) + " /}{round($v, 2)}|{$v}")
+		}
+		src := "{namespace floats.c04}\n\n/**\n * @param p\n * @param q\n * @param l\n */\n{template .t}\n" + body.String() + "\n{/template}\n"
+		b := &c14Bundle{Stream: "floats", Files: []srcFile{{"floats.soy", src}}}
+		var sets []data.Map
+		for k := 0; k < 2; k++ {
+			fl := func() data.Value { return data.Float(c04FloatPool[e.rng.Intn(len(c04FloatPool))]) }
+			var l data.List
+			for j := e.rng.Intn(4); j > 0; j-- {
+				l = append(l, fl())
+			}
+			if l == nil {
+				l = data.List{}
+			}
+			sets = append(sets, data.Map{"p": fl(), "q": fl(), "l": l})
+		}
+		out = append(out, c04Prepare(e, b, "floats.c04.t", sets, nil)...)
+	}
+	return out
+}
+
+// c04RoundNegativeTrigger: the trigger of round-negative-tie: the bundle calls round() and a negative float is around
+// (a negative float datum, or a negative literal / a subtraction inside a round call)
+var c04RoundNeg = regexp.MustCompile(`round\([^)]*-`)
+
+func c04RoundNegativeTrigger(u *c04Unit, c c04Call) bool {
+	calls := false
+	for _, f := range u.b.Files {
+		if strings.Contains(f.Text, "round(") {
+			calls = true
+			if c04RoundNeg.MatchString(f.Text) {
+				return true
+			}
+		}
+	}
+	if !calls {
+		return false
+	}
+	var neg func(v interface{}) bool
+	neg = func(v interface{}) bool {
+		switch v := v.(type) {
+		case float64:
+			return v < 0
+		case []interface{}:
+			for _, x := range v {
+				if neg(x) {
+					return true
+				}
+			}
+		case map[string]interface{}:
+			for _, x := range v {
+				if neg(x) {
+					return true
+				}
+			}
+		}
+		return false
+	}
+	return neg(map[string]interface{}(c.data))
+}
+
 // hand-written cases for the divergences listed in DESIGN.md section 4 C04 / Appendix A (J1..J7, I11)
 func c04Corpus(e *env) []*c04Unit {
 	mk := func(name, params, body string, d data.Map) []*c04Unit {
-		src := "{namespace corpus.c04}\n\n/**\n" + params + " */\n{template .t}\n" + body + "\n{/template}\n"
+		src := "{namespace corpus.c04}\n\n/**\n" + params + " */\n{template .t}\n" + body + "\n{/template}\n" +
+			"\n/**\n * @param? p\n */\n{template .u}\n<{$p}>\n{/template}\n"
 		b := &c14Bundle{Stream: "corpus:" + name, Files: []srcFile{{"corpus.soy", src}}}
 		return c04Prepare(e, b, "corpus.c04.t", []data.Map{d}, nil)
 	}
@@ -288,6 +436,28 @@ func c04Corpus(e *env) []*c04Unit {
 	add(mk("hidden-js-var", " * @param l\n * @param __var\n", "{foreach $x in $l}{$__var}{/foreach}", data.Map{"l": data.List{data.Int(7), data.Int(8)}, "__var": data.String("v")}))
 	add(mk("hidden-js-limit", " * @param __limit\n", "{for $x in range(2)}{$__limit}{/for}", data.Map{"__limit": data.String("m")}))
 	add(mk("css", " * @param s\n", "{css foo}{css $s, bar}", data.Map{"s": data.String("base")}))
+	// lets named like the helper variables of a loop over $x, live with the loop (outside and inside it), for every suffix
+	// the generator derives helper names with; the boundary of the freshness invariant of the generated names
+	xs := data.Map{"xs": data.List{data.String("a"), data.String("b")}}
+	for _, sfx := range helperSuffixes() {
+		add(mk("helper-name-outer-"+sfx, " * @param xs\n", "{let $x"+sfx+": 'kept' /}{foreach $x in $xs}[{$x}{index($x)}{isLast($x) ? 'L' : ''}]{/foreach}{sp}{$x"+sfx+"}", xs))
+		add(mk("helper-name-inner-"+sfx, " * @param xs\n", "{foreach $x in $xs}{let $x"+sfx+": 'in' /}[{$x}{index($x)}{isLast($x) ? 'L' : ''}{$x"+sfx+"}]{/foreach}", xs))
+		add(mk("helper-name-range-"+sfx, "", "{let $x"+sfx+": 'kept' /}{for $x in range(1, 6, 2)}{let $x"+sfx+"_1: 'in' /}[{$x}{index($x)}{isLast($x) ? 'L' : ''}{$x"+sfx+"_1}]{/for}{sp}{$x"+sfx+"}", data.Map{}))
+	}
+	// floats: the near-half family through round(x, 2), halves through round(x); negative ties are the finding round-negative-tie
+	fl := func(xs ...float64) data.List {
+		var l data.List
+		for _, x := range xs {
+			l = append(l, data.Float(x))
+		}
+		return l
+	}
+	add(mk("float-round-digits", " * @param l\n", "{foreach $p in $l}{round($p, 2)}{if not isLast($p)};{/if}{/foreach}", data.Map{"l": fl(3.14159, 1.005, 1.255, 4.145, 89.5, 2.675, 0.615)}))
+	add(mk("float-round-halves", " * @param l\n", "{foreach $p in $l}{round($p)}/{round($p, 1)}/{floor($p)}/{ceiling($p)}{if not isLast($p)};{/if}{/foreach}", data.Map{"l": fl(0.5, 1.5, 2.5, 0.45, 1.25, 7.0)}))
+	add(mk("float-round-negative-ties", " * @param l\n", "{foreach $p in $l}{round($p)}/{round($p, 1)}{if not isLast($p)};{/if}{/foreach}", data.Map{"l": fl(-0.5, -2.5, -1.25, -0.4)}))
+	add(mk("float-arith", " * @param p\n * @param q\n", "{$p + $q};{$p * 3};{$p - $q};{min($p, $q)};{max($p, 2)};{floor($p - $q)};{ceiling($q - $p)}", data.Map{"p": data.Float(0.1), "q": data.Float(0.2)}))
+	add(mk("helper-name-digits", " * @param xs\n", "{let $x_1: 'p' /}{let $x1: 'q' /}{foreach $x in $xs}{let $x_2: 'r' /}[{$x}{$x_2}]{/foreach}{$x_1}{$x1}", xs))
+	add(mk("helper-name-param-buffer", "", "{let $param: 'kept' /}{call .u}{param p}[{$param}]{/param}{/call}{$param}", data.Map{}))
 	return out
 }
 
@@ -387,7 +557,7 @@ func firstLine04(s string) string {
 // ---------- the run ----------
 
 func runC04(e *env) {
-	e.res.Rule = "program = bundle from the command grammar restricted to the common subset (no floats, integers bounded by construction and checked by a magnitude analysis, same-kind equality, range() only as a loop list, directives noAutoescape/id/escapeHtml; all call forms, let/foreach/for/switch/if, loop helpers, msg and plural with and without a translation bundle, css, $ij) x 2 data sets, plus a corpus of the known divergences; translated by the real soyjs.Write, run in node 20 with soyutils.js, compared with the Go render (exact string). Non-trivial = rendered without error on the Go side; distinct by sources+data."
+	e.res.Rule = "program = bundle from the command grammar restricted to the common subset (no floats -- a separate stream prints float data and short decimal literals through round / floor / ceiling / min / max and + - * --, lets named like the generator's loop helpers live with the loop, integers bounded by construction and checked by a magnitude analysis, same-kind equality, range() only as a loop list, directives noAutoescape/id/escapeHtml; all call forms, let/foreach/for/switch/if, loop helpers, msg and plural with and without a translation bundle, css, $ij) x 2 data sets, plus a corpus of the known divergences; translated by the real soyjs.Write, run in node 20 with soyutils.js, compared with the Go render (exact string). Non-trivial = rendered without error on the Go side; distinct by sources+data."
 	if e.replay != "" {
 		c04Replay(e)
 		return
@@ -395,6 +565,7 @@ func runC04(e *env) {
 	var units []*c04Unit
 	units = append(units, c04Corpus(e)...)
 	units = append(units, c04Bundles(e, 800*e.scale)...)
+	units = append(units, c04FloatBundles(e, 120*e.scale)...)
 	c04Run(e, units)
 	c04ExprTie(e, 3000*e.scale)
 	c04StmtTie(e, 1500*e.scale)
@@ -535,13 +706,20 @@ func c04Known(u *c04Unit, c c04Call, got, jsErr string) string {
 	if strings.Contains(got, "quot;") && strings.ReplaceAll(got, "quot;", "#34;") == c.goOut && c04HasQuote(u, c) {
 		return "quote-entity"
 	}
+	if c04ParamBufferTrigger(u) {
+		return "js-param-buffer-binds-name"
+	}
 	if u.shapes["print-collection"] || c04PrintsCollection(u, c) {
 		return "print-collection"
 	}
 	if u.shapes["print-andor"] {
 		return "andor-operand-value"
 	}
-	if u.shapes["float"] {
+	if c04RoundNegativeTrigger(u, c) {
+		return "round-negative-tie"
+	}
+	// I11: attributed only when the trigger really holds on a printed value: one side uses exponent notation
+	if u.shapes["float"] && (c04Exponent.MatchString(c.goOut) || c04Exponent.MatchString(got)) {
 		return "float-format"
 	}
 	return ""
@@ -579,6 +757,19 @@ func c04PrintsCollection(u *c04Unit, c c04Call) bool {
 }
 
 var _ = sort.Strings
+
+// c04ParamBufferTrigger: the trigger of js-param-buffer-binds-name (pending repair C04-11): some file refers to a Soy
+// variable called exactly $param and has a content parameter
+var c04DollarParam = regexp.MustCompile(`\$param([^A-Za-z0-9_]|$)`)
+
+func c04ParamBufferTrigger(u *c04Unit) bool {
+	for _, f := range u.b.Files {
+		if c04DollarParam.MatchString(f.Text) && strings.Contains(f.Text, "{/param}") {
+			return true
+		}
+	}
+	return false
+}
 
 // c04HasQuote: the trigger of quote-entity: a double quote occurs in the sources or in the data
 func c04HasQuote(u *c04Unit, c c04Call) bool {
